@@ -34,6 +34,7 @@ class Injector:
         self.count = 0
         self.k = 0
         self.payload = None
+        self.callback = None
         self.delivered = False
         self._claimed = False
 
@@ -51,6 +52,11 @@ class Injector:
         self.count += 1
         if self.k and self.count == self.k and not self.delivered:
             self.delivered = True
+            if self.callback is not None:
+                # re-entrancy: an asynchronous callback (signal handler, finalizer, logging hook) runs library code right here
+                cb, self.callback = self.callback, None
+                cb()
+                return None
             raise PAYLOADS[self.payload]()
         return None
 
@@ -80,12 +86,29 @@ class Injector:
             self._disarm()
         return self.count
 
+    def run_with_callback(self, fn, k: int, callback):
+        """Run fn() and, at its k-th kernpy line event, call ``callback()`` synchronously (it may itself run kernpy code), then
+        let fn continue. Returns (delivered, outcome) like run()."""
+        self.count, self.k, self.payload, self.delivered, self.callback = 0, k, None, False, callback
+        self._arm()
+        try:
+            try:
+                out = ('ok', fn())
+            except BaseException as e:  # noqa
+                if isinstance(e, (KeyboardInterrupt, SystemExit)):
+                    raise
+                out = ('exc', e)
+        finally:
+            self._disarm()
+            self.callback = None
+        return self.delivered, out
+
     def run(self, fn, k: int, payload: str):
         """Run fn() and raise ``payload`` at its k-th kernpy line event.
 
         Returns (delivered, outcome) where outcome is ('ok', value) or ('exc', exception).
         """
-        self.count, self.k, self.payload, self.delivered = 0, k, payload, False
+        self.count, self.k, self.payload, self.delivered, self.callback = 0, k, payload, False, None
         self._arm()
         try:
             try:
